@@ -164,6 +164,18 @@ def pipePokes (n : Nat) (i : PipeIn) : List (Nat × Int) :=
 
 def pipeOuts (n : Nat) : List Nat := (List.range n).map fun j => 2 + n + j
 
+
+/-- a bare Reg(d, q, enable, reset, reset_value) as a netlist: wires d=1 (`dw` bits) q=2 (`w` bits) e=3 r=4 (`cw` bits each);
+    the reset value is any natural number, also ≥ 2^w -/
+def regLeaf (rv : Nat) (hasE hasR : Bool) : RLeaf :=
+  { hasR := hasR, hasE := hasE, rv := rv, d := 1, e := if hasE then 3 else 0, r := if hasR then 4 else 0, q := 2 }
+
+def regNet (w dw cw rv : Nat) (hasE hasR : Bool) : KNet :=
+  { wd := fun x => if x = 1 then dw else if x = 2 then w else cw, kinds := [], regs := [regLeaf rv hasE hasR], order := [] }
+
+def regPokes (i : RegIn) : List (Nat × Int) := [(3, (i.e : Int)), (4, (i.r : Int)), (1, (i.d : Int))]
+
+
 /-! ### rendering for the comparison with the live dump -/
 def nats (l : List Nat) : String := ",".intercalate (l.map toString)
 
